@@ -858,6 +858,11 @@ def gen_cov(draw, tier="quick"):
         else:
             tg["lon"][j] = lo0
     case = {"spec": spec, "cond": cond, "tg": tg}
+    if draw(st.integers(0, 2)) == 0:
+        # the kriging object first lives with another unit / time ratio; the model is then exchanged (or its time ratio
+        # changed in place) and the setup refreshed as documented
+        case["start"] = {"geo_factor": draw(st.sampled_from([1.0, 57.29577951308232, 1.0 / 6371.0, 3.0])),
+                         "ta_factor": draw(st.sampled_from([1.0, 3.0, 0.25])), "inplace": draw(st.booleans())}
     if T:
         tscale = spec["len_scale"] * spec["time_anis"]
         case["cond_t"] = draw(_times(nc, tscale))
@@ -890,7 +895,23 @@ def check_cov(case, rec):
     dr = 64 * EPS * (g + tmax)
 
     # --- SRF-free: positions and distances the kriging system is built from ----
-    kall = lib(gs.krige.Simple, model, cpos.copy(), list(case["cond_val"]), mean=case["mean"], _what="Simple kriging", _tags=tags)
+    start = case.get("start")
+    if start and (start["geo_factor"] != 1.0 or (T and start["ta_factor"] != 1.0)):
+        inplace = bool(start["inplace"] and T and start["geo_factor"] == 1.0)
+        spec0 = dict(spec, geo_scale=g * (1.0 if inplace else start["geo_factor"]), time_anis=ta * (start["ta_factor"] if T else 1.0))
+        m0 = _ll_model(spec0, tags)
+        kall = lib(gs.krige.Simple, m0, cpos.copy(), list(case["cond_val"]), mean=case["mean"], _what="Simple kriging", _tags=tags)
+        with common.quiet():
+            kall(tpos[:, :1].copy())
+            if inplace:
+                kall.model.anis = [1.0, 1.0, ta]
+                model = kall.model
+            else:
+                kall.model = model
+            kall.set_condition()
+        rec.label("krige_model_" + ("changed_in_place" if inplace else "exchanged"))
+    else:
+        kall = lib(gs.krige.Simple, model, cpos.copy(), list(case["cond_val"]), mean=case["mean"], _what="Simple kriging", _tags=tags)
     kp = np.asarray(kall._krige_pos, dtype=float)
     want = _oracle_iso(clat, clon, g, ct, ta)
     err = float(np.max(np.abs(kp - want)))
